@@ -4,7 +4,7 @@
    slice stiffness is Gen/GenStiffness.v (regenerated from the source). *)
 From Coq Require Import ZArith QArith Qabs List Bool Arith Sorted Permutation.
 From Inkfem Require Import Num.NumOps Gen.GenStiffness Gen.GenRecover Model.Types Model.Slice Model.Dof Model.Assemble Model.Recover
-  Spec.Superposition Proofs.AssembleProofs Proofs.FieldProofs Proofs.SystemProofs.
+  Spec.Superposition Proofs.AssembleProofs Proofs.FieldProofs Proofs.SystemProofs Gen.GenAssemble Proofs.AssembleShape.
 Import ListNotations.
 Local Open Scope Q_scope.
 
@@ -21,6 +21,27 @@ Theorem C17_slice_is_placed : forall (b : bar Q) na nb da db i j,
          (slice_numbers da db) i j.
 Proof. exact slice_contribs_placed. Qed.
 Print Assumptions C17_slice_is_placed.
+
+(* the same with the six numbers as preprocess/element.go lists them (Gen/GenAssemble.v, regenerated on every run,
+   which also checks on the syntax tree that the bars are assembled one after the other by plain loops) *)
+Theorem C17_slice_is_placed_at_the_numbers_the_source_lists : forall (b : bar Q) na nb da db i j,
+  kraw_at (slice_contribs b na nb da db) i j ==
+  placed (stiff_gen (b_L b) (b_c b) (b_s b) (pn_t na) (pn_t nb) (b_E b) (b_A b) (b_I b))
+         (asm_slice_numbers da db) i j.
+Proof. exact slice_placed_as_written. Qed.
+Print Assumptions C17_slice_is_placed_at_the_numbers_the_source_lists.
+
+Theorem C17_node_load_reaches_the_entries_the_source_adds_it_to : forall (b : bar Q) (nd : pnode Q) (d : dof3) i,
+  let g := to_global (b_c b) (b_s b) (pn_net nd) in
+  fraw_at (node_fterms b (nd, d)) i == fraw_at (asm_load_terms d (t_fx g) (t_fy g) (t_mz g)) i.
+Proof. exact node_load_as_written. Qed.
+Print Assumptions C17_node_load_reaches_the_entries_the_source_adds_it_to.
+
+Theorem C17_steps_of_the_assembly_as_the_source_takes_them :
+  asm_per_bar = [AsmBarStiffness; AsmBarLoads] /\ asm_after_bars = [AsmTrivialRows; AsmSupports] /\
+  asm_bars_one_after_the_other = true /\ asm_skips_negligible_terms = true.
+Proof. exact steps_as_written. Qed.
+Print Assumptions C17_steps_of_the_assembly_as_the_source_takes_them.
 
 (* without tiny terms the 1e-10 filter is invisible *)
 Theorem C17_filter_invisible : forall k, no_tiny k ->
